@@ -14,7 +14,7 @@ import (
 	vs "github.com/trzsz/trzsz-go/zzverif/vsched"
 )
 
-var c09Components = []string{"a", "..", ".", "", "/", "/abs", "a/b", `a\b`, "../x", "../victim.txt", "../../victim.txt", "/..", "//..", "\u2025", "\uff0e\uff0e", "\uff0e\uff0e\uff0fvictim.txt", "victim.txt", strings.Repeat("N", 300)}
+var c09Components = []string{"a", "..", ".", "", "/", "/abs", "a/b", `a\b`, "../x", "../victim.txt", "../../victim.txt", "/..", "//..", "../..", "\u2025", "\uff0e\uff0e", "\uff0e\uff0e\uff0fvictim.txt", "victim.txt", strings.Repeat("N", 300)}
 
 type c09Case struct {
 	W       wParams  `json:"w"`
@@ -206,6 +206,9 @@ func c09Cases(tier string) []c09Case {
 						if dm && len(l) <= 2 {
 							out = append(out, c09Case{W: w, Rel: l, Archive: true})
 							out = append(out, c09Case{W: w, Rel: l, Prior: true})
+						} else if dm && pr == 0 && !ow {
+							// (the only configuration in which a directory travels as an archive: longer entry paths too)
+							out = append(out, c09Case{W: w, Rel: l, Archive: true})
 						}
 					}
 				}
@@ -219,7 +222,7 @@ func init() {
 	vs.Register(&vs.Check{
 		ID:    "C09",
 		Level: "exploration",
-		Rule: "peer-supplied names: every list of 1..2 (quick) / 1..3 (thorough) components over {a, .., ., empty, /, /abs, a/b, a\\b, ../x, ../victim.txt, ../../victim.txt, /.., //.., U+2025, U+FF0E U+FF0E, U+FF0E U+FF0E U+FF0F victim.txt (compatibility look-alikes of '..' and '/'), victim.txt, 300-byte name} as JSON path list, as plain NAME (last element), as archive entry header, and as second record after an ordinary directory record with the same path id " +
+		Rule: "peer-supplied names: every list of 1..2 (quick) / 1..3 (thorough) components over {a, .., ., empty, /, /abs, a/b, a\\b, ../x, ../victim.txt, ../../victim.txt, /.., //.., ../.., U+2025, U+FF0E U+FF0E, U+FF0E U+FF0E U+FF0F victim.txt (compatibility look-alikes of '..' and '/'), victim.txt, 300-byte name} as JSON path list, as plain NAME (last element), as archive entry header (below the archive's root; every position of the entry path), and as second record after an ordinary directory record with the same path id " +
 			"x overwrite x directory mode x protocol x receiving role (client downloading / server receiving); each a full transfer by the real sendFiles fed doctored records; oracle: full snapshot of everything outside the destination is unchanged; plus ordinary transfers into a nested, otherwise empty destination stopped with 'delete' before every 6th scheduler step (the destination directory and the levels above it must survive)",
 		Assumptions: []string{"the upload sender is the body of TrzszFilter.uploadFiles re-assembled from the product's own functions (the property is about the receiver)", "'\\' is not a separator on this platform"},
 		QuickBudget: 100, ThoroughBudget: 900, DiedIsViolation: true,
